@@ -225,8 +225,9 @@ def _lookup(prog: Program, run: Run) -> None:
     u = prog.func("OdxLinkDatabase.update")
     s = ast.unparse(u.node)
     cfg = CFG(u.node)
+    # the ID-level setdefault (a fragment-level `self._db.setdefault(frag, {})` may exist too)
     sd = [x for x in walk_no_nested(u.node) if isinstance(x, ast.Call) and call_name(x) ==
-          "setdefault"]
+          "setdefault" and x.args and "local_id" in ast.unparse(x.args[0])]
     asg = [x for x in walk_no_nested(u.node) if isinstance(x, ast.Assign) and isinstance(
         x.targets[0], ast.Subscript) and "local_id" in ast.unparse(x.targets[0])]
     ok = False
